@@ -18,8 +18,8 @@ are listed before their parents, multi-parent tasks, several jobs and files, eve
 policy of the loader), and - through harness/c09_driver.py, which performs main.main's steps -
 the loaders main.py constructs but then refuses to run (TaskLoaderPylot,
 WorkloadLoaderClockworkBursty).  The execution modes / policies of main.py that end before
-anything is simulated (synthetic, benchmark, replay/pylot, BranchPrediction, Clockwork on an
-Alibaba trace) are run once each so that the evidence says how they end.  Per mode TLC reports
+anything is simulated (synthetic, benchmark, replay/pylot, an Alibaba trace directory, Clockwork
+on an Alibaba trace) are run once each so that the evidence says how they end.  Per mode TLC reports
 how far the runs got (RunShape); a mode whose runs did not simulate is a machinery failure,
 and every mode has its own equal-hash-seed control and negative control.
 
@@ -500,7 +500,7 @@ EXTRA_MODES = [
 ]
 NEW_MODE_CPU_LIMIT_S = 300
 # a mode counts as exercised only when TLC's RunShape of both traces says that the runs simulated something
-MIN_RAN_FRACTION = 0.75
+MIN_RAN_FRACTION = 0.6
 
 
 def _seed_for(r, k):
@@ -553,10 +553,18 @@ def plan(tier):
             worlds.append(w)
             h1, h2 = HASH_PAIRS[k % len(HASH_PAIRS)]
             add(w, _seed_for(rm, k), h1, h2, k in mctrl, k in mneg, rm)
-    bp = gen_world(0)
-    bp.update(id="stub_policy_branch_prediction", mode="stub_policy_branch_prediction", policy="BranchPrediction",
-              expect_exit="any", flags=dict(bp["flags"], scheduler="BranchPrediction", scheduler_policy="random"))
-    for w in c09_modes.gen_stub_worlds() + [bp]:
+    # BranchPrediction on the YAML / JSON descriptions: the EDF worlds once more under that policy
+    n_bp = 2 if q else 32
+    for j in range(n_bp):
+        k = 4 * j
+        w = gen_world(k)
+        w.update(id=f"wbp{k:04d}", policy="BranchPrediction",
+                 flags=dict(w["flags"], scheduler="BranchPrediction",
+                            scheduler_policy=c09_modes.BP_POLICIES[j % 4], branch_prediction_accuracy=[0.5, 0.9][(j // 4) % 2]))
+        worlds.append(w)
+        h1, h2 = HASH_PAIRS[(j + 1) % len(HASH_PAIRS)]
+        add(w, _seed_for(r, k + 2 * (j % 2)), h1, h2, j % 8 == 0, j % 8 == 1, r)
+    for w in c09_modes.gen_stub_worlds():
         worlds.append(w)
         add(w, 1, 1, 2, False, False, r)
     return worlds, runs, pairs
@@ -837,14 +845,14 @@ def run(tier: str) -> CheckResult:
     res.level = "exploration"
     res.assumptions = list(ASSUMPTIONS)
     worlds, runs, pairs = plan(tier)
-    n_file = sum(1 for w in worlds if w["mode"] == "workload_file")
+    n_file = sum(1 for w in worlds if w["mode"] == "workload_file" and not w["id"].startswith("wbp"))
     res.extra["rule"] = (
         f"mode workload_file: worlds w0000..w{n_file-1:04d} of harness/c09.gen_world (VERIF_SEED={seed()}; policy cycles "
-        "EDF/FIFO/LSF/Clockwork with --scheduler_runtime=0, first graph cycles poisson/gamma/closed_loop/fixed/periodic, "
+        "EDF/FIFO/LSF/Clockwork with --scheduler_runtime=0 plus the EDF worlds again under BranchPrediction, first graph cycles poisson/gamma/closed_loop/fixed/periodic, "
         "deadline variance, conditional shapes, --runtime_variance, >= 3 resource names per worker); the other workload "
         "modes: generators of harness/c09_modes.py (alibaba_replay: pickled Alibaba traces, DAGs listed in topological / "
         "reverse / shuffled / joins-first order, one file with fixed / periodic / poisson / gamma / fixed_gamma releases or "
-        "several labelled files, EDF/FIFO/LSF/BranchPrediction/Clockwork; lib_pylot and lib_clockwork_bursty: the loaders "
+        "several labelled files, EDF/FIFO/LSF/BranchPrediction; lib_pylot and lib_clockwork_bursty: the loaders "
         "main.py constructs but does not run, through harness/c09_driver.py; stub_*: execution modes of main.py that end "
         "before simulating); every world: the program twice in fresh processes with one --random_seed and two "
         "PYTHONHASHSEED values; some worlds of every mode a third run with the first hash seed (control) and one with "
